@@ -72,8 +72,8 @@ std::vector<std::string> TaprootCommitmentEnv::Description() {
         auto node_begin = m_control.data() + TAPROOT_CONTROL_BASE_SIZE + TAPROOT_CONTROL_NODE_SIZE * i;
         rv.push_back(strprintf("Branch: %s", HexStr(Span<const unsigned char>(node_begin, TAPROOT_CONTROL_NODE_SIZE)).c_str()));
     }
-    rv.push_back(strprintf("Tweak: %s", m_p.ToString().c_str()));
-    rv.push_back(strprintf("CheckTapTweak"));
+    // one line per Iterate() call: the branches, then the final tweak check (the separate "Tweaked" step is disabled)
+    rv.push_back(strprintf("CheckTapTweak: %s", m_p.ToString().c_str()));
     return rv;
 }
 
